@@ -36,6 +36,7 @@ impl Component for E2e {
                     Ok(trace) => {
                         mon.count("looptrace-scenario");
                         lt::monitors_e2e(&trace, &sc, mon);
+                        lt::monitors_cfg(&trace, &sc, mon);
                         lt::monitors_c17(&trace.ticks, &sc, mon);
                         lt::monitors_c16(&trace.ticks, &sc, mon);
                     }
